@@ -539,6 +539,89 @@ def gen_listener_drop(rng):
     return normalise({"cfg": cfg, "steps": sc.steps, "flavour": "listener-drop"})
 
 
+def gen_backlog(rng):
+    """A listener that does not accept for a while: several connectors from different hosts
+    (and its own) get queued in a scripted arrival order; one or two of the earlier ones give up
+    (cancel, or a timeout that elapses) AFTER their request was delivered; more requests arrive
+    afterwards; then the listener accepts everything.  Exercises the order of the backlog."""
+    n = rng.choice([2, 3, 3])
+    k = rng.choice([4, 4, 5])
+    cap = k + rng.choice([1, 2])            # k queued requests plus one late arrival never overflow
+    cfg = base_cfg(rng, n, cap=cap)
+    sc = Script(cfg)
+    pairs = [(a, b) for b in range(n) for a in range(b)]
+    for (a, b) in pairs:
+        sc.ctl(0, ["hold", a, b])
+    srv = rng.randrange(n)
+    sc.cmd(0, srv, ["bind", 1, "unspec", 9000])
+    remote = [h for h in range(n) if h != srv]
+    conns = []
+    quitters = set(rng.sample(range(1, 3), rng.choice([1, 1, 2])))        # among the first arrivals
+    tick = cfg["tick_ms"]
+    for ci in range(1, k + 1):
+        h = rng.choice(remote) if (ci <= 3 or rng.random() < 0.8) else srv
+        dst = {"h": srv} if h != srv else "loop"
+        if ci in quitters and rng.random() < 0.5:
+            sc.cmd(1, h, ["connect_t", ci, dst, 9000, rng.choice([4, 5, 6]) * tick])
+        else:
+            sc.cmd(1, h, ["connect", ci, dst, 9000])
+        conns.append((ci, h))
+    # arrival order: the first three remote ones in a random order, one per step
+    on_link = {}
+    for ci, h in conns:
+        if h != srv:
+            on_link.setdefault(h, []).append(ci)
+    early = [c for c in conns if c[1] != srv][:3]
+    late = [c for c in conns if c[1] != srv][3:]
+    rng.shuffle(early)
+    t = 2
+    for ci, h in early:
+        idx = on_link[h].index(ci)
+        on_link[h].remove(ci)
+        sc.ctl(t, ["deliver", h, srv, idx])
+        t += 1
+    # someone who arrived early gives up now (after delivery)
+    t += 1
+    arrived_first = [ci for ci, h in early[:2]]
+    quit_now = [ci for ci in arrived_first if rng.random() < 0.7] or arrived_first[:1]
+    for ci in quit_now:
+        h = dict(conns)[ci]
+        sc.cmd(t + 4, h, ["poll", ci]) if any(c[0] == "connect_t" and c[1] == ci for st in sc.steps
+                                              for c in st["hosts"].get(str(h), [])) else sc.cmd(t, h, ["cancel", ci])
+    t += 5
+    # later arrivals
+    for ci, h in late:
+        idx = on_link[h].index(ci)
+        on_link[h].remove(ci)
+        sc.ctl(t, ["deliver", h, srv, idx])
+        t += 1
+    if not late:
+        # one more connector so that a SYN arrives after the quitter left
+        ci = k + 1
+        h = rng.choice(remote)
+        sc.cmd(t, h, ["connect", ci, {"h": srv}, 9000])
+        sc.ctl(t + 1, ["deliver", h, srv, 0])
+        conns.append((ci, h))
+        t += 2
+    t += 1
+    sid = 100
+    for i in range(len(conns) + 1):
+        sc.cmd(t + i // 2, srv, ["accept", 1, sid])
+        sid += 1
+    t += len(conns) // 2 + 2
+    for ci, h in conns:
+        sc.cmd(t, h, ["poll", ci])
+        sc.cmd(t, h, ["try_write", ci, nonce(ci)])
+    for (a, b) in pairs:
+        sc.ctl(t + 1, ["release", a, b])
+    for s_ in range(100, sid):
+        sc.cmd(t + 3, srv, ["read", s_, 8])
+    for h in range(n):
+        sc.cmd(t + 4, h, ["count"])
+    sc.step(t + 5)
+    return normalise({"cfg": cfg, "steps": sc.steps, "flavour": "backlog"})
+
+
 def gen_residue(rng):
     """Refused and cancelled connects in a row on a tiny ephemeral range: the
     table must be empty again each time and the ports must not run out."""
